@@ -59,6 +59,7 @@ def _jobs(tier):
         ("P-n1-tmpcon", pconsts(depth=d, kinds=CK, dur=0, ptmp=True, pcons=True), P_INV, None),
         ("P-n1-tmp", pconsts(depth=d - 1, kinds=CK, dur=0, ptmp=True), P_INV, None),
         ("P-n2-nodata", pconsts(depth=d - 1, kinds=CK, dur=8, pdata=False, durset=(8, 12)), P_INV, None),
+        ("P-n2-nodata-none", pconsts(depth=d - 1, kinds=CK, dur=8, kind0="none", pdata=False, durset=(8, 12)), P_INV, None),
         ("P-life", pconsts(depth=4 if q else 5, kinds=("push", "life", "ckpt"), dur=8, kind0="none", durset=(8,)), P_INV, None),
         ("P-life-param", pconsts(depth=4 if q else 5, kinds=("push", "life", "ckpt"), dur=8, kind0="uninit", param=True,
                                  durset=(8,)), P_INV, None),
@@ -101,6 +102,7 @@ def _gens(tier):
         ("G-life", pconsts(depth=3, kinds=("push", "life", "ckpt"), dur=8, kind0="none", durset=(8,))),
         ("G-life-param", pconsts(depth=3, kinds=("push", "life", "ckpt"), dur=8, kind0="uninit", param=True, durset=(8,))),
         ("G-nodata", pconsts(depth=3, kinds=CK, dur=8, pdata=False, durset=(8, 12))),
+        ("G-nodata-none", pconsts(depth=4, kinds=CK, dur=8, kind0="none", pdata=False, durset=(8, 12))),
         ("G-int-target", pconsts(depth=3, kinds=("push", "init", "ckpt"), dur=8, vals_a=(3,), vals_b=(4,), durset=(8,))),
         ("G-assign", pconsts(depth=2, kinds=("push", "assign"), dur=8, durset=(8, 12))),
         ("G-assign-live-param", pconsts(depth=2, kinds=("push", "assign"), dur=8, durset=(8, 12), param=True, live=True,
@@ -274,3 +276,28 @@ def run_record_persist(chk: Check, tier: str, rng: random.Random):
     finally:
         ex.shutdown(wait=False, cancel_futures=True)
     chk.note(f"record-persist part: {time.time() - t0:.1f}s")
+
+
+def run_unready_resize(chk: Check, tier: str, rng: random.Random):
+    """C13's clause "never fails merely because storage is not initialised yet", on the one path that leaves an
+    UNINITIALISED record with a non-zero write position: a checkpoint of a record whose data is not persisted
+    (persist_data=False) restores only the pointer; the temporal setters must still resize such a record.
+    RecordPersistMC with not-ready initial storage, model-checked and replayed (used by ./check C13)."""
+    c = pconsts(depth=4 if tier == "quick" else 5, kinds=CK, dur=8, kind0="none", pdata=False, durset=(8, 12))
+    name, c, res, expect, named = _run_mc(("P-unready-resize", dict(c), P_INV, None))
+    if res.violated:
+        chk.violation({"clause": "MC:" + ",".join(res.violated), "op": "spec", "site": "RecordPersistMC", "config": name},
+                      {"config": name, "tlc_tail": res.out[-3000:]})
+    elif not res.ok:
+        raise MachineryFailure(f"TLC run {name} did not complete: {res.out[-2000:]}")
+    chk.add_tlc("rp-mc:" + name, res)
+    gname, c, gres = _gen(("G-unready-resize", c))
+    if not gres.ok:
+        raise MachineryFailure(f"TLC generation run {gname} failed: {gres.out[-2000:]}")
+    g = graph.Graph.from_lines(gres.printed())
+    g.name = gname
+    chk.add_tlc("rp-gen:" + gname, gres)
+    replay_graph(chk, g, c, budget=(2500 if tier == "quick" else None), rng=rng, tick=rng.choice([0.25, 0.5]))
+    classes = chk.extra.get("record_persist_edge_classes", {})
+    if not any(k.startswith("load/ok/no->none") for k in classes):
+        raise MachineryFailure("unready-resize replay is vacuous: no pointer-only load into unready storage was executed")
